@@ -39,6 +39,47 @@ def giantCount : G Bytes := do
   let ns ← pick [1, 1, 1000, 1001, 4294967295]
   pure (u32 5 ++ u32 1 ++ [10, 0, 0, 1] ++ u32 0 ++ u32 1 ++ u32 2 ++ u32 ns ++ u32 fmt ++ u32 body.length ++ body)
 
+/-- mapping files the loader accepts although they cannot be applied: negative bit offsets / lengths in layer
+    statements, destinations that are unexported members of the message (`sizeCache`, `unknownFields`). The pipes are
+    wired as cmd/goflow2/main.go wires them (`pipew`: producer behind WrapPanicProducer, decoder behind
+    PanicDecoderWrapper): a datagram that trips over such a statement comes back as an error (`err:recovered`) and the
+    datagrams after it are processed as usual. -/
+def genInsane (i : Nat) : G (List String) := do
+  let dests := ["sizeCache", "unknownFields", "state", "in_if", "vni_x"]
+  let nl ← range 1 3
+  let layers ← listOf nl (do
+    pure ({ layer := ← pick ["ipv4", "ipv6", "ip", "udp", "tcp", "ethernet", "dot1q", "mpls", "4"], encap := ← chance 1 4,
+            offset := Int.ofNat (← pick [0, 8, 16, 32]) - Int.ofNat (← pick [0, 0, 1, 8, 120, 200, 400, 100000]),
+            length := Int.ofNat (← pick [8, 16, 32]) - Int.ofNat (← pick [0, 0, 0, 9, 40]),
+            destination := ← pick dests } : Format.RawMap))
+  let elems ← listOf (← range 0 2) (do
+    pure ({ type := ← pick [400, 401, 1, 8], destination := ← pick dests, endian := ← pick ["", "little"] } : Format.RawMap))
+  let raw : Format.RawConfig := { protobuf := [⟨"vni_x", 3000, "varint", false⟩], layers := layers, ipfix := elems, v9 := elems }
+  let cid := "ins" ++ toString (i % 2)
+  let mut out : List String := [Format.cfgOp cid raw, "pipew wn netflow " ++ cid, "pipew ws sflow " ++ cid, "pipew wa flow " ++ cid]
+  let e : Exporter := ⟨[10, 0, 0, 77], 2055⟩
+  let mut clock := 1700000000000000000 + i
+  -- sFlow datagrams whose raw headers are real layered frames (complete and cut)
+  for _ in [0:6] do
+    clock := clock + 1000
+    let dg ← Sflow.genDatagram (frame := do
+      let b := Spec.Frame.bytes (← Frame.genFrame)
+      if (← chance 1 3) then pure (b.take (← below (b.length + 1))) else pure b) (flowOnly := true)
+    out := out ++ [pktLine (← pick ["ws", "wa"]) e clock (Spec.Sflow.encode dg)]
+  -- v9 / IPFIX: a template with the mapped elements, data for it, then a plain template and data (must be processed as usual)
+  for version in [9, 10] do
+    clock := clock + 1000
+    let tpl : List SField := [⟨400, 4, none⟩, ⟨401, 2, none⟩, ⟨1, 4, none⟩, ⟨8, 4, none⟩]
+    let recs ← listOf 2 (Netflow.genRecordVals tpl)
+    let m0 : Msg := ⟨version, 0, 1, 2, 3, 5, [.template [(300, tpl)] 0, .data 300 tpl recs 0]⟩
+    out := out ++ [pktLine (← pick ["wn", "wa"]) e clock (encode { m0 with count := 3 })]
+    clock := clock + 1000
+    let tpl2 : List SField := [⟨12, 4, none⟩, ⟨2, 4, none⟩]
+    let recs2 ← listOf 2 (Netflow.genRecordVals tpl2)
+    let m1 : Msg := ⟨version, 0, 1, 2, 3, 5, [.template [(301, tpl2)] 0, .data 301 tpl2 recs2 0]⟩
+    out := out ++ [pktLine "wn" e clock (encode { m1 with count := 3 }), pktLine "wa" e clock (encode { m1 with count := 3 })]
+  pure out
+
 def gen (n : Nat) : G (List String) := do
   let mut out : List String := []
   for i in [0:n] do
@@ -76,6 +117,8 @@ def gen (n : Nat) : G (List String) := do
           out := out ++ ["call parsepacket " ++ cid ++ " " ++ hexOf (← mutate b)]
         | none => pure ()
       | _ => pure ()
+    -- accepted but inapplicable mapping files through the pipes wired with main.go's panic wrappers
+    out := out ++ (← genInsane i)
     -- ParsePacket on truncated / mutated frames
     for _ in [0:4] do
       let f ← Frame.genFrame
